@@ -84,6 +84,8 @@ def run_determinism(report, n_sets, rng, formats):
             opts = ["--color_format", fmt, "--upem", str(rng.choice([1000, 1024])), "--family", "Det Test"]
             if fmt in ("cbdt", "sbix"):
                 opts += ["--bitmap_resolution", "32"]
+            if fmt.startswith("cff"):
+                opts += ["--output_file", "Font.otf"]  # the outline flavour follows the output file's suffix
             variants = []
             base_args = opts + [str(p) for p in paths]
             variants.append(("base", d / "b0", base_args, d, "0", None))
@@ -125,7 +127,9 @@ def run_determinism(report, n_sets, rng, formats):
                 return
             base = inter["base"]
             for name, m in inter.items():
-                diff = [k for k in base if k in m and m[k] != base[k] and not k.endswith(".toml") and k != "build.ninja"]
+                # files that spell source paths relative to the build directory legitimately differ when the directory does
+                pathful = (".toml", ".glyphmap") if name.startswith("other cwd") else (".toml",)
+                diff = [k for k in base if k in m and m[k] != base[k] and not k.endswith(pathful) and k != "build.ninja"]
                 if diff:
                     case.update(variant=name, differing_intermediates=diff[:5])
                     report_failure(report, f"intermediate_{i}", case)
